@@ -260,18 +260,24 @@ func (r *RPCExecuteProgramRequest) EncodeTo(e *types.Encoder) {
 // DecodeFrom implements ProtocolObject.
 func (r *RPCExecuteProgramRequest) DecodeFrom(d *types.Decoder) {
 	r.FileContractID.DecodeFrom(d)
-	r.Program = make([]Instruction, d.ReadUint64())
-	for i := range r.Program {
+	// the instruction count comes from the peer: grow the program as
+	// instructions are actually decoded instead of allocating it up front
+	n := d.ReadUint64()
+	r.Program = nil
+	for i := uint64(0); i < n; i++ {
 		var id types.Specifier
 		id.DecodeFrom(d)
-		r.Program[i] = instructionForID(id, d.ReadUint64())
-		if r.Program[i] == nil {
+		instr := instructionForID(id, d.ReadUint64())
+		if d.Err() != nil {
+			return
+		} else if instr == nil {
 			d.SetErr(fmt.Errorf("unrecognized instruction id: %q", id))
 			return
 		}
-		if r.Program[i].DecodeFrom(d); d.Err() != nil {
+		if instr.DecodeFrom(d); d.Err() != nil {
 			return
 		}
+		r.Program = append(r.Program, instr)
 	}
 	r.ProgramData = d.ReadBytes()
 }
